@@ -722,7 +722,7 @@ func checkScopedTypes(w *core.World, r *core.Report, rule string) {
 
 }
 
-// checkFsGetReturnsFileBytes (C10 R10, C07 R10): every value a success return of the filesystem
+// checkFsGetReturnsFileBytes (C10 R10, C07 R12): every value a success return of the filesystem
 // back end's Get hands out is the result of a file read made in that call, itself - not a memoised
 // copy and not a trimmed or otherwise transformed derivative.
 func checkFsGetReturnsFileBytes(w *core.World, r *core.Report, rule, consequence string) {
